@@ -28,7 +28,11 @@ def load_claims():
     m.claim = claim
     m.NOT_APPLICABLE = {}
     m.ADDENDA = {}
+    m.TECH_ADD = {}
     spec.loader.exec_module(m)
+    for pid, extra in m.TECH_ADD.items():
+        if pid in CLAIMS:
+            CLAIMS[pid]["technique"] = CLAIMS[pid]["technique"].rstrip() + "; " + extra
     for pid, extra in m.ADDENDA.items():
         if pid in CLAIMS:
             CLAIMS[pid]["text"] = CLAIMS[pid]["text"].rstrip() + " " + extra
